@@ -60,6 +60,20 @@ fn check_generate(seed: u64, min: f32, max: f32) -> Option<(String, String)> {
     None
 }
 
+/// shuffle of a vector with duplicates / descending content: the multiset must be preserved
+fn check_shuffle_content(seed: u64, content: &[usize]) -> Option<(String, String)> {
+    let mut v = content.to_vec();
+    let mut g = Generator::create(seed);
+    g.shuffle(&mut v);
+    let (mut a, mut b) = (content.to_vec(), v.clone());
+    a.sort_unstable();
+    b.sort_unstable();
+    if a != b {
+        return Some(("C18 shuffle is not a permutation".into(), format!("create({}).shuffle({:?}) = {:?}", seed, content, v)));
+    }
+    None
+}
+
 fn check_shuffle(seed: u64, len: usize, buf: &mut Vec<usize>) -> Option<(String, String)> {
     buf.clear();
     buf.extend(0..len);
@@ -401,6 +415,12 @@ pub fn run(ctx: &Ctx) -> Report {
                     r.transitions += 1;
                     if let Some((k, w)) = guard(|| check_generate(*seed, min, max)).unwrap_or_else(|e| Some(("C18 generate panics".into(), e))) {
                         r.violate(k, w, &Kv::new().put("op", "generate").put("seed", *seed).put("min", min).put("max", max));
+                    }
+                }
+                for content in [&[5usize, 5, 1][..], &[9, 7, 7, 7, 2], &[4, 3, 2, 1, 0], &[usize::MAX, 0, usize::MAX, 1, 1, 1, 0, 2]] {
+                    r.transitions += 1;
+                    if let Some((k, w)) = guard(|| check_shuffle_content(*seed, content)).unwrap_or_else(|e| Some(("C18 shuffle panics".into(), crate::util::first_line(&e)))) {
+                        r.violate(k, w, &Kv::new().put("op", "shuffle").put("seed", *seed).put("len", content.len()));
                     }
                 }
                 for len in 3..=8usize {
